@@ -20,9 +20,9 @@ Begin == /\ Is("begin")
          /\ st' = EmptyState /\ bad' = {} /\ l' = l + 1
 
 \* defaults for optional declaration fields
-Norm(d) == [k \in DOMAIN d \cup {"tags", "attrs", "pos", "long", "params", "q", "pk", "text", "arr", "val"} |->
+Norm(d) == [k \in DOMAIN d \cup {"tags", "attrs", "pos", "long", "params", "q", "pk", "text", "arr", "val", "lines"} |->
               IF k \in DOMAIN d THEN d[k]
-              ELSE IF k \in {"tags", "attrs", "params", "q", "arr"} THEN <<>>
+              ELSE IF k \in {"tags", "attrs", "params", "q", "arr", "lines"} THEN <<>>
               ELSE IF k = "pos" THEN [file |-> "", line |-> 0, col |-> 0]
               ELSE IF k = "pk" THEN FALSE ELSE ""]
 
